@@ -17,7 +17,8 @@ fuzz_target!(|data: &[u8]| {
     init();
     let region = fuzzdec::decode_hdr(data);
     let p = Poisoned::new(&region);
-    let opts = HdrOpts { debug: true, max_steps: region.len() / 8 + 4 };
+    let debug = data.first().map_or(true, |b| b & 0xC0 == 0);
+    let opts = HdrOpts { debug, max_steps: region.len() / 8 + 4 };
     let mut rec = Rec::new(p.ptr() as usize);
     match catch(|| unsafe { multiboot2_header::Multiboot2Header::load(p.ptr().cast()) }) {
         None => rec.t.push("load", Val::Panic),
